@@ -171,12 +171,31 @@ class Program:
         m = self.module(rel)
         f = m.functions.get(qualname)
         if f is None:
-            # moved to another module of the closure (a pure move keeps the qualified name): accept a unique match
-            hits = [mm.functions[qualname] for mm in self.modules.values() if qualname in mm.functions]
-            if len(hits) == 1:
-                return hits[0]
-            raise AnchorMissing("function %s not found in %s" % (qualname, rel))
+            f = self._relocated(qualname)
+            if f is None:
+                raise AnchorMissing("function %s not found in %s" % (qualname, rel))
         return f
+
+    def _relocated(self, qualname):
+        """A function that is no longer where the rules expect it: moved to another module (same qualified name), moved up into a base
+        class (inherited by the class that is named), or turned from a method into a module-level function / the other way round
+        (same simple name, unique in the closure).  None if there is no unique candidate."""
+        hits = [mm.functions[qualname] for mm in self.modules.values() if qualname in mm.functions]
+        if len(hits) == 1:
+            return hits[0]
+        if "." in qualname:
+            cname, mname = qualname.rsplit(".", 1)
+            for _m, c in self.find_class(cname.split(".")[-1]):
+                inherited = self.methods_of(c, inherited=True).get(mname)
+                if inherited is not None:
+                    return inherited
+        simple = qualname.rsplit(".", 1)[-1]
+        if simple.startswith("__"):
+            return None
+        same = [f for _m, q, f in self.all_functions() if q.rsplit(".", 1)[-1] == simple and q.count(".") <= 1]
+        if len(same) == 1:
+            return same[0]
+        return None
 
     def func_inlined(self, rel, qualname, depth=2, exclude=()):
         """The function with calls to sibling helpers expanded (see engine/inline.py); cached.  `exclude`: callee names to keep as calls."""
@@ -184,7 +203,14 @@ class Program:
         cache = self.__dict__.setdefault("_inlined_cache", {})
         if key not in cache:
             from . import inline
-            cache[key] = inline.inlined(self, self.func(rel, qualname), depth, exclude=exclude)
+            f = self.func(rel, qualname)
+            owner = None
+            if "." in qualname:
+                # a method that the named class inherits: self.x() inside it means the named class's own x()
+                named = [c for _m, c in self.find_class(qualname.rsplit(".", 1)[0].split(".")[-1])]
+                if len(named) == 1 and getattr(f, "_parent", None) is not named[0] and isinstance(getattr(f, "_parent", None), ast.ClassDef):
+                    owner = named[0]
+            cache[key] = inline.inlined(self, f, depth, exclude=exclude, owner=owner)
         return cache[key]
 
     def cls(self, rel, qualname):
@@ -201,9 +227,7 @@ class Program:
         m = self.modules.get(rel)
         f = m.functions.get(qualname) if m else None
         if f is None:
-            hits = [mm.functions[qualname] for mm in self.modules.values() if qualname in mm.functions]
-            if len(hits) == 1:
-                return hits[0]
+            f = self._relocated(qualname)
         return f
 
     def const(self, rel, name):
